@@ -59,3 +59,39 @@ package match
 //@   ensures [never-un-notified] forall c any :: notified[c] >= old(notified[c])
 //@   ensures [at-most-once-with-shared-set C06] updated != nil ==> (forall c any :: old(has(updated, c)) ==> has(updated, c))
 //@     && (forall c any :: notified[c] - old(notified[c]) == ite(has(updated, c) && !old(has(updated, c)), 1, 0))
+
+//@ func New
+//@   props C06 C12
+//@   ensures res0 != nil && fresh(res0) && res0.tree != nil && fresh(res0.tree) && res0.tree.clients == nil && res0.tree.children == nil
+
+// addQuery registers client at exactly the node reached by query, creating the
+// missing nodes on the way; no other node's client set changes.
+//@ func (*branch).addQuery
+//@   props C06 C12
+//@   requires b != nil && client != nil
+//@   requires [subtree-wf] forall x ref :: x != nil ==> (forall k string :: has(heapsel("branch.children", x), k) ==> heapsel("branch.children", x)[k] != nil)
+//@   modifies *
+//@   ensures [registered-here C06] len(query) == 0 ==> has(b.clients, client)
+//@     && (forall c any :: c != client ==> (has(b.clients, c) <==> old(has(b.clients, c))))
+//@     && b.children == old(b.children)
+//@   assert at call (*branch).addQuery#0: [descends-by-head C06] len(query) > 0 && arg0 != nil && arg0 == b.children[query[0]] && has(b.children, query[0])
+//@     && view(arg1) == Tail(query) && arg2 == client
+//@     && (old(has(b.children, query[0])) ==> arg0 == old(b.children[query[0]]))
+//@     && (forall k string :: k != query[0] ==> (has(b.children, k) <==> old(has(b.children, k))))
+//@     && (forall c any :: has(b.clients, c) <==> old(has(b.clients, c)))
+
+// removeQuery removes exactly client at the node reached by query, prunes a
+// child only when that child reported itself empty, and reports empty iff this
+// node ends up with neither clients nor children.
+//@ func (*branch).removeQuery
+//@   props C06 C12
+//@   requires b != nil
+//@   requires [subtree-wf] forall x ref :: x != nil ==> (forall k string :: has(heapsel("branch.children", x), k) ==> heapsel("branch.children", x)[k] != nil)
+//@   modifies *
+//@   ensures [empty-iff-nothing-left C06] res0 <==> (len(b.clients) == 0 && len(b.children) == 0)
+//@   ensures [removes-only-the-client C06] len(query) == 0 ==> !has(b.clients, client)
+//@     && (forall c any :: c != client ==> (has(b.clients, c) <==> old(has(b.clients, c))))
+//@     && (forall k string :: (has(b.children, k) <==> old(has(b.children, k))) && b.children[k] == old(b.children[k]))
+//@   assert at call (*branch).removeQuery#0: [descends-by-head C06] len(query) > 0 && arg0 == b.children[query[0]] && view(arg1) == Tail(query) && arg2 == client
+//@     && (forall c any :: has(b.clients, c) <==> old(has(b.clients, c))) && (forall k string :: has(b.children, k) <==> old(has(b.children, k)))
+//@   assert at builtin delete#1: [prune-only-empty-child C06] len(sb.clients) == 0 && len(sb.children) == 0 && arg1 == query[0]
